@@ -151,6 +151,20 @@ def gen(rng, tier):
     for i in range(n):
         stream = "lattice" if i % 2 == 0 else "float"
         yield {"op": "cloud", "stream": stream, "points": gen_cloud(rng, stream)}
+    # larger clouds (a blocked or chunked implementation has block boundaries somewhere): 100..700 points with the farthest
+    # pair placed anywhere, in particular among the last few rows
+    for i in range(8 if tier == "quick" else 120):
+        k = rng.choice([127, 128, 129, 130, 200, 257] if tier == "quick" else [127, 128, 129, 130, 200, 255, 257, 300, 513, 700]) \
+            + rng.randint(0, 3)
+        s = 10.0 ** rng.uniform(-2, 2)
+        pts = [gens.fvec(rng, s) for _ in range(k)]
+        a, b = rng.sample(range(k), 2)
+        if i % 2 == 0:
+            a, b = k - 1 - rng.randint(0, 2), k - 4 - rng.randint(0, 20)      # both in the trailing rows
+        d = np.array(gens.unit(rng)) * s * 3.0
+        pts[a] = (np.array(pts[a]) + d).tolist()
+        pts[b] = (np.array(pts[b]) - d).tolist()
+        yield {"op": "cloud", "stream": "float", "points": pts}
     n = 500 if tier == "quick" else 6000
     for i in range(n):
         stream = "lattice" if i % 2 == 0 else "float"
